@@ -33,8 +33,12 @@ BIN = ["+", "-", "*", "/", "//", "%", "**", "<<", ">>", "&", "|", "^", "and", "o
        "==", "!=", "<", "<=", ">", ">="]
 UN = ["-", "+", "~", "not "]
 NAMES = ["a", "b", "c", "d", "e", "g"]
-LITERALS = ["0", "1", "10", "007" if False else "7", "1.", "1.5", ".5", "1e3", "1.5e-3", "1E3", "2.e2", "12345678901234567890",
-            "True", "False", "1_000" if False else "1000"]
+LITERALS = ["0", "1", "10", "7", "1.", "1.5", ".5", "1e3", "1.5e-3", "1E3", "2.e2", "12345678901234567890",
+            "True", "False", "1000", "00", "0.", "5.e0", "1E+3", "1e-0", "0.0e0",
+            # Python numeric literals of the other kinds
+            "1j", "2.5j", "1e2j", "0j", "0x10", "0XfF", "0o17", "0b101", "1_000", "1_0.5", "0_0", "1e1_0"]
+# names that begin with a keyword / constant of the grammar
+KEYWORDISH = ["Truex", "Falsey", "andy", "orb", "nota", "iffy", "elsez", "True_1", "notx", "ifelse"]
 
 
 def _ok_python(s):
@@ -89,6 +93,10 @@ def gen_strings(tier):
             f"{a} or {b} and {c}", f"{a} and {b} or {c}", f"{a} or {b} or {c}", f"{a} and {b} and {c}",
             ]
     out += LITERALS
+    for nm in KEYWORDISH:
+        out += [nm, f"{nm} + 1", f"{a} * {nm}", f"-{nm}", f"f({nm})", f"{a} if {nm} else {b}", f"{nm} and {a}", f"not {nm}"]
+    for lit in LITERALS[21:]:
+        out += [f"{lit} + {a}", f"{a} * {lit}", f"-{lit}", f"f({lit})"]
     for lit in ["1", "1.5", "10", "True"]:
         out += [f"{lit} + {a}", f"{a} * {lit}", f"{a} ** {lit}" if lit != "1.5" else f"{a} * {lit}", f"-{lit}", f"{a} - {lit}",
                 f"{lit} - {a}", f"{a} // {lit}" if lit != "True" else f"{a} + {lit}", f"f({lit})", f"v[{lit}]" if lit != "1.5" else "v[2]"]
@@ -175,7 +183,7 @@ def _family(s):
 
 def _env(fam):
     env, pre = {}, []
-    for n in NAMES:
+    for n in NAMES + KEYWORDISH:
         v, cs = sym.var(n, fam, *H.NUM_RANGE[fam])
         env[n] = v
         pre += cs
